@@ -27,8 +27,13 @@ def same(x, snap):
 
 def oracle(c):
     schema = copy.deepcopy(c["schema"])
+    regs = c.get("registries")
     for api in ("validate", "validated", "normalized", "validate_nonorm"):
-        v = pool.PoolValidator(copy.deepcopy(schema), **copy.deepcopy(c["config"]))
+        kw = copy.deepcopy(c["config"])
+        if regs:
+            kw["rules_set_registry"], kw["schema_registry"] = regs
+            g1, g2 = snapshot(dict(regs[0].all())), snapshot(dict(regs[1].all()))
+        v = pool.PoolValidator(copy.deepcopy(schema), **kw)
         doc = copy.deepcopy(c["document"])
         d_snap = snapshot(doc)
         s_snap = snapshot(dict(v.schema))
@@ -53,6 +58,8 @@ def oracle(c):
             return "%s() modified the allow_unknown rule set" % api
         if not same(dict(cerberus.schema_registry.all()), r1) or not same(dict(cerberus.rules_set_registry.all()), r2):
             return "%s() modified a registry" % api
+        if regs and (not same(dict(regs[0].all()), g1) or not same(dict(regs[1].all()), g2)):
+            return "%s() modified a registry entry: %r -> %r" % (api, (g1[1] + g2[1])[:200], (repr(dict(regs[0].all())) + repr(dict(regs[1].all())))[:200])
         if v.document is doc:
             return "%s(): validator.document is the caller's object" % api
         if api == "validate_nonorm" and not (v.document == doc):
@@ -60,8 +67,36 @@ def oracle(c):
     return None
 
 
+def extra(ctx, res):
+    """schemas whose rule sets / sub-schemas are registry references (chains included)"""
+    import random
+    import refs
+    from gen import Gen
+    g = Gen(ctx["seed"] + 55, normalization=True, nested_bias=True)
+    rng = random.Random(ctx["seed"] + 56)
+    n = 6000 if ctx["tier"] == "thorough" else 400
+    for i in range(n):
+        schema, cfg = g.schema(), g.config()
+        pos = refs.referenceable(schema)
+        if not pos:
+            continue
+        chosen = rng.sample(pos, rng.randrange(1, len(pos) + 1))
+        s2, rdefs, sdefs = refs.substitute(schema, chosen)
+        c = {"schema": s2, "config": cfg, "document": g.doc_for(schema, p_present=0.7), "update": False,
+             "registries": refs.make_registries(rdefs, sdefs)}
+        try:
+            d = oracle(c)
+        except cerberus.SchemaError:
+            continue
+        res["cases"] += 1
+        res["nontrivial"] += 1
+        if d:
+            res["violations"].append({"signature": "foreign-write:registry" if "registry" in d else "foreign-write:" + d.split("(")[0][:20], "what": d,
+                                      "replay": dict(vrun.case_json(c), rules_set_registry=common.jval(rdefs), schema_registry=common.jval(sdefs))})
+
+
 def run(ctx):
-    return _nfamily.run_family(ctx, oracle, lambda d: "foreign-write:" + d.split("(")[0][:20], use_model=False,
+    return _nfamily.run_family(ctx, oracle, lambda d: "foreign-write:" + d.split("(")[0][:20], use_model=False, extra=extra,
                                genkws=({"nested_bias": True}, {"max_depth": 4, "nested_bias": True}),
                                rule="schemas whose normalization rules sit inside nested containers (keysrules, valuesrules, list/dict schema, items, allow_unknown "
                                     "rule sets, container defaults); every API call on a fresh validator with deep snapshots of document, schema, allow_unknown and "
@@ -70,5 +105,9 @@ def run(ctx):
 
 
 def replay(rp):
-    print(oracle(vrun.case_from_json(rp)))
+    c = vrun.case_from_json(rp)
+    if "rules_set_registry" in rp:
+        import refs
+        c["registries"] = refs.make_registries(common.unjson(rp["rules_set_registry"]), common.unjson(rp["schema_registry"]))
+    print(oracle(c))
     return 0
